@@ -53,6 +53,11 @@ func Harness_C14_DocumentRoundTrip() {
 	if na > 0 {
 		var l []interface{}
 		for i := 0; i < na; i++ {
+			if verifrt.Choose("aka-spelling"+string(rune('0'+i)), 2) == 1 {
+				// valid URIs that url.URL.String() would print differently (upper-case scheme, empty fragment)
+				l = append(l, []string{"HTTPS://aka.example/A", "urn:Example:a#"}[i%2])
+				continue
+			}
 			l = append(l, "https://aka.example/"+verifrt.AnyAtom("aka"+string(rune('0'+i))))
 		}
 		if na == 2 {
